@@ -414,7 +414,14 @@ def check_case(case):
     try:
         g = build(case['mesh'])
         set_surfaces(g, case.get('surfaces'))
-        for p in case.get('pre', []): apply_op(g, p)
+        for p in case.get('pre', []):
+            try: apply_op(g, p)
+            except Exception as e:
+                # an earlier edit of the history is itself one of the operations under test
+                pn = {'refine': 'refine', 'decompose': 'decompose_columns', 'split': 'split_column', 'refine_layers': 'refine_layers'}[p['name']]
+                res['failures'].append({'key': '%s:exception' % pn, 'observed': 'earlier edit %r raised %r\n%s' % (p, e, traceback.format_exc()[-600:]),
+                                        'required': 'the operation completes'})
+                return res
         with _quiet():
             if g.missing_connections or g.extra_connections:
                 res['status'] = 'input-not-conforming'; return res
@@ -430,6 +437,9 @@ def check_case(case):
         if opname == 'refine' and isinstance(e, TypeError) and 'NoneType' in str(e) and op.get('edge') and op.get('bisect'):
             # a bisect_edge_column none of whose sides ends up refined: outside the documented use
             res['status'] = 'edge-column-without-refined-side'; return res
+        if type(e).__name__ == 'NamingConventionError':
+            # more columns / layers than the geometry's naming convention can name: a capacity limit (C17), not C11
+            res['status'] = 'naming-capacity-exceeded'; return res
         res['failures'].append({'key': '%s:exception' % opname, 'observed': 'raised %r\n%s' % (e, tb[-800:]), 'required': 'the operation completes'})
         return res
     res['status'] = r
